@@ -219,10 +219,6 @@ module Z :
   val of_nat : nat -> z
 
   val of_N : n -> z
-
-  val odd : z -> bool
-
-  val testbit : z -> z -> bool
  end
 
 val upd : nat -> 'a1 -> 'a1 list -> 'a1 list
@@ -846,7 +842,7 @@ type op =
 | ONewBatch of nat * nat list * hrel list * (nat * z) list
 | OExchangeBatch of nat * hrel list * nat list * nat list * hrel list
    * (nat * z) list
-| OSetRelBatch of nat * hrel list * hrel list
+| OSetRelBatch of nat * hrel list * nat list * hrel list
 | OAlive of z
 | OHas of z * nat
 | OGetRel of z * nat
